@@ -604,7 +604,7 @@ def main(ctx, args):
             "max_text_bytes": stats["max_bytes"],
             "diagnostics_whose_spans_were_checked": stats["span_checked_diags"],
             "parser_error_spans_compared_with_model": span_stats["errors"],
-            "streams_cut_after_6_hangs": stats.get("cut_streams", []),
+            "streams_cut_after_3_hangs": stats.get("cut_streams", []),
             "aborts_or_timeouts_that_did_not_reproduce_in_a_fresh_child(verdict of the fresh child used)": stats["flaky"],
         },
         "failing_cases_by_known_finding": {known_by_sig[s]["id"]: n for s, n in hit.items()},
